@@ -74,12 +74,12 @@ func main() {
 	})
 	rep.SetRule("(a) scenario = cache contents {0, 1, hundreds..thousands of entries; 17 reply shapes incl. NXDOMAIN/NODATA/SERVFAIL/unknown types/9-60 KB answers; stored through Exec or injected with chosen age, message expiry and cache expiry (fresh, stale, expired, inconsistent)} x {lazy cache on/off} x {HTTP API, Close()+restart file}; one case = one question asked of the original and of the reloaded cache back-to-back; non-trivial = the original cache served it (fresh or stale) or it was an expired injected entry; " +
 		"(b) one case = one prefix length p < |D| of a real dump loaded into a fresh cache; thorough enumerates every p of every dump, quick takes the first/last 64, a stride, random ones and +-16 around every p at which the number of admitted entries changes; non-trivial = the prefix gets past the gzip header; " +
-		"(c) one case = one damaged input from 16 generator families (flips of real dumps in compressed and uncompressed form, splices, hand-made gzip headers/trailers, well-formed gzip+framing around hostile block lengths / random protobuf / hostile entries / garbage DNS messages / decompression bombs); non-trivial = the parser got past the gzip header; distinct = distinct inputs")
+		"(c) one case = one damaged input from 17 generator families (flips of real dumps in compressed and uncompressed form, splices, hand-made gzip headers/trailers, well-formed gzip+framing around hostile block lengths / random protobuf / hostile entries / garbage DNS messages / decompression bombs / 100-400-block streams of ~1 MiB blocks); non-trivial = the parser got past the gzip header; distinct = distinct inputs")
 	rep.Assume("independent reader: Go standard library compress/gzip + hand-written 8-byte framing and protobuf field walker (no mosdns code, no generated protobuf code)")
 	rep.Assume("cache keys are never computed by the harness: injected entries use keys read from the dump of a scratch cache that stored the same question")
 	rep.Assume("wall-clock reads are bracketed: an entry whose message/cache expiry (whole seconds in the dump) lies within +-1 s of the bracket of its two probes is not judged; TTLs are judged against the set of ages possible within the bracket")
 	rep.Assume("answers are compared record by record (header flags, question, owner/type/class/rdata text) - name compression of the served bytes is not compared; dump entries are compared after re-encoding the message without compression")
-	rep.Assume("'hang' = one load does not finish within 120 s (nominal < 2 s); 'allocates without bound' = heap in use grows by more than 256 MiB while loading an input of at most 64 KiB (sampled every 0.3 ms, at every read of the input and when the load returns), or the process runs out of an 8 GiB address space")
+	rep.Assume("'hang' = one load does not finish within 120 s (nominal < 2 s); 'allocates without bound' = heap in use grows by more than 256 MiB while loading an input of at most 64 KiB (sampled every 0.3 ms, at every read of the input and when the load returns), or the process runs out of an 8 GiB address space, or - for streams of 100-400 well-formed ~1 MiB blocks and for zero-length-block bombs, where a block-by-block loader needs about one block - the LIVE heap (after a forced collection at every <=1 KiB read of the input) grows by more than 24 MiB")
 
 	var err error
 	tmpDir, err = os.MkdirTemp(os.Getenv("VERIF_TMP"), "c19-")
@@ -515,6 +515,19 @@ func runDamagePhase(dumps []*scenState, keys []keyedQ) {
 		rep.SetAdd("damage_kind_x_layer", r.Kind+" -> "+r.Layer)
 		rep.Max("damage_max_heap_growth_bytes", r.HeapGrow)
 		rep.Max("damage_max_total_alloc_bytes", r.Alloc)
+		if r.LiveObs > 0 {
+			rep.Count("damage_live_heap_judged_inputs", 1)
+			rep.Count("damage_live_heap_observations", int64(r.LiveObs))
+			rep.Max("damage_max_live_heap_growth_bytes", r.LiveGrow)
+			if r.Kind == "many-blocks-stream" {
+				rep.Count("damage_many_block_streams", 1)
+				rep.Max("damage_many_block_stream_max_live_growth_bytes", r.LiveGrow)
+				rep.SetAdd("many_block_stream_cases", fmt.Sprintf("#%d %dus live=%d obs=%d %s", r.Idx, r.Micros, r.LiveGrow, r.LiveObs, r.Desc))
+				if rep.Get("damage_many_block_streams") <= 2 {
+					rep.Sample(map[string]any{"phase": "damage", "idx": r.Idx, "kind": r.Kind, "desc": r.Desc, "input_bytes": r.Len, "status": r.Code, "layer": r.Layer, "live_heap_growth_peak": r.LiveGrow, "live_observations": r.LiveObs, "live_limit": liveLimitStream})
+				}
+			}
+		}
 		rep.Max("damage_slowest_load_us", r.Micros)
 		rep.Max("damage_max_input_bytes", int64(r.Len))
 		rep.Max("damage_max_entries_admitted", int64(r.Held))
@@ -567,6 +580,9 @@ func runDamagePhase(dumps []*scenState, keys []keyedQ) {
 			if !found {
 				rep.Inconclusive("damage phase never reached parser layer %q", l)
 			}
+		}
+		if rep.Get("damage_many_block_streams") == 0 || rep.Get("damage_live_heap_observations") == 0 {
+			rep.Inconclusive("no many-block stream was loaded under the live-heap monitor")
 		}
 		if rep.Get("damage_probes_served_from_hostile_entries") == 0 {
 			rep.Inconclusive("no admitted hostile entry was ever served")
